@@ -55,7 +55,14 @@ def match_brace(src, i):
 
 
 def norm(s):
-    return re.sub(r"\s+", " ", s).strip()
+    """layout-independent text: white space collapsed, none next to brackets and punctuation, no
+    trailing comma before a closing bracket (rustfmt may move any of these)"""
+    s = re.sub(r"\s+", " ", s).strip()
+    s = re.sub(r"\s*([()\[\],;.?])\s*", r"\1", s)
+    s = re.sub(r"\s*::\s*", "::", s)
+    s = re.sub(r",([)\]])", r"\1", s)
+    s = re.sub(r"([,;])(?=\S)", r"\1 ", s)
+    return s
 
 
 def lean_str(s):
